@@ -74,11 +74,11 @@ Proof. exact (mpc_search_inconclusive_first ex lb ne pre x post). Qed.
 (* corrected model (switch off) *)
 Theorem mgs_search_sound lb n sts k :
   so_res (mgs_solve false lb n sts) = Solved k ->
-  lb <= k < Nat.max (lb + 1) n /\
+  lb <= k < mgs_upper lb n /\
   map status_of (firstn (used (mgs_solve false lb n sts)) sts) = repeat Infeasible (k - lb) ++ [Optimal].
 Proof.
   unfold mgs_solve, mgs_range. rewrite mgs_loop_false.
-  destruct (kloop never never (krange lb (Nat.max (lb + 1) n)) sts 0) as [r m] eqn:E. simpl.
+  destruct (kloop never never (krange lb (mgs_upper lb n)) sts 0) as [r m] eqn:E. simpl.
   intros ->. apply plain_sound in E. exact E.
 Qed.
 
@@ -86,7 +86,7 @@ Theorem mgs_search_inconclusive lb n sts p :
   inconclusive_at sts p -> p < used (mgs_solve false lb n sts) -> so_res (mgs_solve false lb n sts) = NotSolved.
 Proof.
   unfold mgs_solve, mgs_range. rewrite mgs_loop_false.
-  destruct (kloop never never (krange lb (Nat.max (lb + 1) n)) sts 0) as [r m] eqn:E. simpl.
+  destruct (kloop never never (krange lb (mgs_upper lb n)) sts 0) as [r m] eqn:E. simpl.
   intros Hi Hp. eapply plain_inconclusive; eauto.
 Qed.
 
@@ -95,14 +95,14 @@ Theorem mgs_search_inconclusive_first lb n pre x post :
   so_res (mgs_solve false lb n (pre ++ x :: post)) = NotSolved.
 Proof.
   intros Hp Hx. unfold mgs_solve, mgs_range. rewrite mgs_loop_false.
-  pose proof (kloop_first_inconclusive (krange lb (Nat.max (lb + 1) n)) pre x post 0 Hp Hx) as H.
+  pose proof (kloop_first_inconclusive (krange lb (mgs_upper lb n)) pre x post 0 Hp Hx) as H.
   destruct (kloop never never _ (pre ++ x :: post) 0). exact H.
 Qed.
 
 (* the code as it stands (switch on): what remains true ... *)
 Theorem mgs_faithful_final_optimal b lb n sts k :
   so_res (mgs_solve b lb n sts) = Solved k ->
-  lb <= k < Nat.max (lb + 1) n /\ 0 < used (mgs_solve b lb n sts) /\
+  lb <= k < mgs_upper lb n /\ 0 < used (mgs_solve b lb n sts) /\
   exists x, nth_error sts (used (mgs_solve b lb n sts) - 1) = Some x /\ status_of x = Optimal.
 Proof.
   unfold mgs_solve. destruct (mgs_loop b (mgs_range lb n) sts 0) as [r m] eqn:E. simpl. intros ->.
@@ -139,7 +139,7 @@ Lemma lb_phase_justified ex um l0 nw sts lb n1 :
 Proof.
   unfold lb_phase. destruct um; [|intros H; injection H as <- _; left; reflexivity].
   rewrite mgs_loop_false. unfold mgs_range.
-  destruct (kloop never never (krange l0 (Nat.max (l0 + 1) nw)) sts 0) as [r m] eqn:E.
+  destruct (kloop never never (krange l0 (mgs_upper l0 nw)) sts 0) as [r m] eqn:E.
   destruct r; try (destruct ex; intros H; first [discriminate|injection H as <- _; left; reflexivity]).
   intros H. injection H as <- <-. right. split; [reflexivity|]. exists k.
   apply plain_sound in E. destruct E as [Hr Hs]. repeat split; [lia|exact Hs].
@@ -299,7 +299,7 @@ Qed.
 Theorem mfd_refuted_exit : forall sk,
   exists P sts p, inconclusive_at sts p /\ so_res (mfd_solve sk true P sts) = Exited.
 Proof.
-  intros sk. exists (mkfd 1 true 4 true 1 false 0 never never), [mkraw TimeLimit false], 0.
+  intros sk. exists (mkfd 1 true 4 true 0 false 0 never never), [mkraw TimeLimit false; mkraw TimeLimit false], 0.
   split; [exists (mkraw TimeLimit false); split; reflexivity|]. destruct sk; reflexivity.
 Qed.
 
